@@ -80,8 +80,24 @@ R8 (added, seeded change C16/1) primitive tokens synthesised by a step are recov
    (the recovered run gathers an empty list).  Exempt, with reason: null markers `Token(None)` (skip /
    default placeholders: nothing was computed, 3 sites today); a flag forwarded from a parameter or computed
    (`self._is_recoverable(job)`) is the caller's / the configuration's decision.
+R9 (added, seeded change C16/_mut/2) the first-iteration decision of `LoopCombinatorStep.restore`: the smallest missing
+   output of the loop is the first iteration of the loop (its parent, the loop input, has a tag of a different depth: 0
+   for 0.0) or an intermediate one (parent 0.k, same depth).  The two tags whose depths are compared are found through
+   the comparison itself (`len(T.split('.'))`, `T.count('.')`, equal constant offsets; locals assigned once, walrus
+   and one-expression helpers are inlined, so temporaries / `_tag_depth(t)` / `_same_depth(a, b)` read alike).  Over
+   the finite domain depth(parent) {<, =, >} depth(token) every branch fact (dominating tests, conditional
+   expressions, guard clauses, De Morgan / negated forms) is evaluated three-valued; (a) every site where the token's
+   own tag joins a collection (set / list display, add / append / update argument, conditional-expression branch,
+   one of several assignments of a local) must be reachable exactly under {<, >}; (b) every site consuming a compared
+   tag shortened by one level (`'.'.join(T.split('.')[:-1])`, `T.rsplit('.', 1)[0]`, `T.rpartition('.')[0]`; a local
+   assigned once stands for its loads) must be reachable exactly under {=}.  `!=` turned into `>` / `<` / `>=` / `==`
+   or a dropped test fail (a) or (b): the shortened parent of a first iteration is '' (compare_tags raises inside
+   `_recover`, after the rollback bookkeeping) or a wrong loop prefix.  No test of the two depths at all while a tag
+   is shortened is reported under (b); neither construct present is an analysis error (vanished anchor).
 
 Not armed (see DESIGN section 7): the sort of injected tokens by tag *string* in `_inject_tokens`.
+Not decided by R9: that a parent is never *deeper* than the token is an invariant of tag generation, so `<` instead of
+`!=` would behave alike today; R9 demands the inequality the property states (both < and >) and reports `<`.
 """
 
 from __future__ import annotations
@@ -91,7 +107,7 @@ import itertools
 
 from ..cfg import ALL, NORMAL
 from ..dataflow import defs_of, origins, reaching_defs
-from ..model import ancestors, parent, unparse
+from ..model import ancestors, enclosing_stmt, parent, unparse, walk_no_nested
 from ..selftest import V
 from ._util_D import (
     FM,
@@ -158,7 +174,10 @@ META = {
         "can return normally (the converse of C17.R1); (R8) every construction of a plain `Token` in a Step subclass or "
         "reached from the `token` argument of a `_persist_token` call site binds `recoverable` to something not statically "
         "false, since `Token.is_available` is that flag (null markers `Token(None)` exempt; a flag forwarded from a parameter "
-        "is checked at the emitting call site). Decides necessary structural conditions only."
+        "is checked at the emitting call site); (R9) the branch facts of `LoopCombinatorStep.restore` are evaluated over the three "
+        "possible relations between the depth of the parent tag and the depth of the token's tag: the token's own tag is restored (first "
+        "iteration) exactly when the depths differ, the shortened parent tag (intermediate iteration) exactly when they are equal. "
+        "Decides necessary structural conditions only."
     ),
     "undecided": "equality of workflow outputs between recovered and failure-free runs (needs execution)",
     "assumptions": [
@@ -1633,8 +1652,267 @@ def _blocked(ctx, rule, what, func):
     ctx.ob(rule, what + " (not evaluated: the construct is missing, see the finding of this rule)", True, func=func, node=func.node, trivial=True)
 
 
-RULES = [("R1", r1), ("R2", r2), ("R3", r3), ("R4", r4), ("R5", r5), ("R6", r6), ("R7", r7), ("R8", r8)]
-FLOORS = {"R1": 13, "R2": 16, "R3": 24, "R4": 15, "R5": 3, "R6": 20, "R7": 3, "R8": 9}
+# --------------------------------------------------------------------------- R9
+
+_RELS = ("<", "=", ">")
+_FLIP_REL = {"<": ">", "=": "=", ">": "<"}
+_COLLECT = {"add", "append", "update", "union", "extend", "insert"}
+
+
+def _reparse(e):
+    return ast.parse(unparse(e), mode="eval").body
+
+
+def _single_return(fn):
+    """The returned expression of a function whose body is (docstring +) one `return <expr>`; None otherwise."""
+    body = [s for s in fn.node.body if not (isinstance(s, ast.Expr) and isinstance(s.value, ast.Constant))]
+    if len(body) == 1 and isinstance(body[0], ast.Return) and body[0].value is not None and not fn.is_async:
+        return body[0].value
+    return None
+
+
+def _inlined(p, f, e, depth=3):
+    """A re-parsed copy of `e` in which every local of `f` with exactly one plain (whole) assignment is replaced by
+    the assigned expression, a walrus by its value and a call of a one-expression helper (module function, or method
+    of the own class through `self.` / `cls.`) by the helper's returned expression over the arguments - so that
+    temporaries, aliases and extracted predicates read like the expression written in place.  Chains of locals are
+    followed to their end (the text of a tag must not depend on where the chain was entered), `depth` bounds the
+    nesting of inlined helper calls."""
+
+    def sub(node, f_, d, seen, env):
+        class T(ast.NodeTransformer):
+            def visit_NamedExpr(self, n):
+                return self.visit(n.value)
+
+            def visit_Lambda(self, n):
+                return n
+
+            def visit_Name(self, n):
+                if not isinstance(n.ctx, ast.Load):
+                    return n
+                if env is not None:
+                    return _reparse(env[n.id]) if n.id in env else n
+                if n.id not in seen and len(seen) < 24:
+                    ds = defs_of(f_, n.id)
+                    if len(ds) == 1 and ds[0].kind in ("assign", "walrus") and ds[0].index is None and ds[0].value is not None:
+                        return sub(_reparse(ds[0].value), f_, d, seen | {n.id}, None)
+                return n
+
+            def visit_Call(self, n):
+                n = self.generic_visit(n)
+                if d <= 0 or any(isinstance(a, ast.Starred) for a in n.args) or any(k.arg is None for k in n.keywords):
+                    return n
+                callee = None
+                if isinstance(n.func, ast.Name):
+                    q = p.resolve_expr(f_.module, n.func)
+                    callee = p.functions.get(q) if q else None
+                elif (isinstance(n.func, ast.Attribute) and isinstance(n.func.value, ast.Name) and n.func.value.id in ("self", "cls")
+                      and f_.cls is not None):
+                    callee = p.resolve_method(f_.cls.qualname, n.func.attr)
+                ret = _single_return(callee) if callee is not None else None
+                if ret is None:
+                    return n
+                b = bind_args(callee.node, n, bound=not isinstance(n.func, ast.Name))
+                names = {x.id for x in ast.walk(ret) if isinstance(x, ast.Name)}
+                if b is None or not all(a in b for a in callee.params if a in names and a not in ("self", "cls")):
+                    return n
+                return sub(_reparse(ret), callee, d - 1, seen, {**{a: a_ for a, a_ in b.items()}})
+
+        return T().visit(node)
+
+    return sub(_reparse(e), f, depth, frozenset(), None)
+
+
+def _is_dot(x):
+    return isinstance(x, ast.Constant) and x.value == "."
+
+
+def _depth_term(x):
+    """(tag text, offset) when the (inlined) expression denotes depth(tag) + offset: `len(T.split('.'))`,
+    `T.count('.')` (depth - 1), either plus / minus an integer constant."""
+    if isinstance(x, ast.BinOp) and isinstance(x.op, (ast.Add, ast.Sub)):
+        for a, b in ((x.left, x.right), (x.right, x.left)):
+            if isinstance(b, ast.Constant) and isinstance(b.value, int) and not isinstance(b.value, bool) and (a is x.left or isinstance(x.op, ast.Add)):
+                t = _depth_term(a)
+                if t is not None:
+                    return t[0], t[1] + (b.value if isinstance(x.op, ast.Add) else -b.value)
+        return None
+    if (isinstance(x, ast.Call) and isinstance(x.func, ast.Name) and x.func.id == "len" and len(x.args) == 1 and not x.keywords):
+        a = x.args[0]
+        if (isinstance(a, ast.Call) and isinstance(a.func, ast.Attribute) and a.func.attr == "split" and len(a.args) == 1 and _is_dot(a.args[0])
+                and not a.keywords):
+            return unparse(a.func.value), 0
+        return None
+    if (isinstance(x, ast.Call) and isinstance(x.func, ast.Attribute) and x.func.attr == "count" and len(x.args) == 1 and _is_dot(x.args[0])
+            and not x.keywords):
+        return unparse(x.func.value), -1
+    return None
+
+
+def _depth_compare(x):
+    """(tag A, tag B, op) for `depth(A) op depth(B)` over two different tags with equal offsets; None otherwise."""
+    if isinstance(x, ast.Compare) and len(x.ops) == 1:
+        a, b = _depth_term(x.left), _depth_term(x.comparators[0])
+        if a is not None and b is not None and a[0] != b[0] and a[1] == b[1]:
+            return a[0], b[0], x.ops[0]
+    return None
+
+
+def _rel_eval(x, rel, first):
+    """Three-valued value of the (inlined) test `x` when depth(first) `rel` depth(other tag); None = not determined."""
+    if isinstance(x, ast.UnaryOp) and isinstance(x.op, ast.Not):
+        v = _rel_eval(x.operand, rel, first)
+        return None if v is None else not v
+    if isinstance(x, ast.BoolOp):
+        vs = [_rel_eval(v, rel, first) for v in x.values]
+        if isinstance(x.op, ast.And):
+            return False if any(v is False for v in vs) else (True if all(v is True for v in vs) else None)
+        return True if any(v is True for v in vs) else (False if all(v is False for v in vs) else None)
+    dc = _depth_compare(x)
+    if dc is not None:
+        r = rel if dc[0] == first else _FLIP_REL[rel]
+        op = dc[2]
+        table = {ast.Eq: "=", ast.NotEq: "<>", ast.Lt: "<", ast.LtE: "<=", ast.Gt: ">", ast.GtE: ">="}
+        return (r in table[type(op)]) if type(op) in table else None
+    return None
+
+
+def _prefix_base(x):
+    """Tag text T when `x` is `T.split('.')[:-1]`, `T.rsplit('.', 1)[0]` or `T.rpartition('.')[0]` (the tag one level up)."""
+    if not isinstance(x, ast.Subscript) or not isinstance(x.value, ast.Call) or not isinstance(x.value.func, ast.Attribute):
+        return None
+    c, s = x.value, x.slice
+    minus1 = lambda y: (isinstance(y, ast.UnaryOp) and isinstance(y.op, ast.USub) and isinstance(y.operand, ast.Constant) and y.operand.value == 1) or (  # noqa: E731
+        isinstance(y, ast.Constant) and y.value == -1)
+    if c.func.attr == "split" and len(c.args) == 1 and _is_dot(c.args[0]) and isinstance(s, ast.Slice) and s.lower is None and s.step is None and s.upper is not None and minus1(s.upper):
+        return unparse(c.func.value)
+    zero = isinstance(s, ast.Constant) and s.value == 0
+    if c.func.attr == "rsplit" and len(c.args) == 2 and _is_dot(c.args[0]) and isinstance(c.args[1], ast.Constant) and c.args[1].value == 1 and zero:
+        return unparse(c.func.value)
+    if c.func.attr == "rpartition" and len(c.args) == 1 and _is_dot(c.args[0]) and zero:
+        return unparse(c.func.value)
+    return None
+
+
+def r9(ctx):
+    """LoopCombinatorStep.restore: first iteration <=> the parent tag and the token tag have different depths."""
+    p = ctx.prog
+    f = p.cls(f"{STEP}.LoopCombinatorStep").methods.get("restore")
+    what_first = "LoopCombinatorStep.restore resumes from the first iteration (the token's own tag joins the restored tags) exactly when the depths of the parent tag and of the token tag differ"
+    what_inter = "LoopCombinatorStep.restore resumes from an intermediate iteration (the parent tag shortened by one level joins the restored tags) exactly when the parent tag and the token tag have the same depth"
+    if f is None:
+        ctx.ob("R9", what_first, False, qualname=f"{STEP}.LoopCombinatorStep", instance="loop:first-iteration", message="LoopCombinatorStep has no restore of its own")
+        return
+    g = f.cfg
+    inl: dict[int, ast.AST] = {}
+
+    def inlined(e):
+        if id(e) not in inl:
+            inl[id(e)] = _inlined(p, f, e)
+        return inl[id(e)]
+
+    body = list(walk_no_nested(f.node))
+    # the depth comparison(s): which two tags are compared (comparisons written in place, tests that are a temporary or a helper call)
+    pairs = set()
+    for n in body:
+        cands = [n] if isinstance(n, ast.Compare) else ([n.test] if isinstance(n, (ast.If, ast.IfExp, ast.While)) else [])
+        for c in cands:
+            for y in ast.walk(inlined(c)):
+                dc = _depth_compare(y)
+                if dc is not None:
+                    pairs.add(frozenset(dc[:2]))
+    if not pairs:
+        # no test of the two depths at all: whatever shortens a tag by one level does so for first iterations too
+        shortened = [n for n in body if isinstance(n, ast.Subscript) and _prefix_base(n) is not None]
+        ctx.require(bool(shortened), "C16.R9: LoopCombinatorStep.restore neither compares the depths of two tags nor shortens a tag by one level: the construct is not recognised")
+        for n in shortened:
+            ctx.ob("R9", what_inter, False, func=f, node=n, instance="loop:intermediate-iteration",
+                   message=f"`{unparse(enclosing_stmt(n))[:100]}` shortens a tag by one level (restart from an intermediate iteration) but no test in restore compares the depth of the "
+                   "parent tag with the depth of the token's tag (`len(parent_tag.split('.')) != len(token.tag.split('.'))`, temporaries and one-expression helpers are followed): "
+                   "a token of the first iteration (0.0, parent 0) is taken for an intermediate one and the loop counters are rebuilt from the tags {'0', ''}")
+        return
+    ctx.require(len(pairs) == 1, f"C16.R9: LoopCombinatorStep.restore compares the depths of {len(pairs)} pairs of tags (one expected: "
+                "`len(parent_tag.split('.'))` against `len(token.tag.split('.'))`, temporaries and one-expression helpers are followed)")
+    first, other = sorted(next(iter(pairs)))
+
+    def site_facts(e):
+        st = e if isinstance(e, ast.stmt) else None
+        ids = (g.ids_of(st) if st is not None else []) or g.node_containing(e)
+        return [x for i in ids for x in path_facts(g, i)] + (expr_facts(e) if st is None else [])
+
+    def reach(facts):
+        """Depth relations under which all the facts can hold, and the depth tests among them."""
+        ev = [(e, v, inlined(e)) for e, v in facts]
+        rels = {r for r in _RELS if all(_rel_eval(x, r, first) in (None, v) for _, v, x in ev)}
+        used = [f"`{unparse(e)[:90]}` is {v}" for e, v, x in ev if any(_rel_eval(x, r, first) is not None for r in _RELS)
+                and not any(e is not e2 and any(e is s for s in ast.walk(e2)) for e2, _, _ in ev)]
+        return rels, used
+
+    def use_sites(e, facts, depth=2):
+        """Where the value of expression `e` is consumed: `x = e` for a local assigned once stands for the loads of x."""
+        st = parent(e)
+        while st is not None and not isinstance(st, ast.stmt) and isinstance(st, (ast.Call, ast.Attribute, ast.Subscript, ast.Starred, ast.keyword)) and depth > 0:
+            # still inside the expression computing the shortened tag ('.'.join(<e>))
+            if isinstance(st, ast.Call) and not (isinstance(st.func, ast.Attribute) and st.func.attr == "join"):
+                break
+            e, st = st, parent(st)
+        if (isinstance(st, ast.Assign) and st.value is e and len(st.targets) == 1 and isinstance(st.targets[0], ast.Name) and depth > 0
+                and len(defs_of(f, st.targets[0].id)) == 1):
+            name = st.targets[0].id
+            out = []
+            for n in body:
+                if isinstance(n, ast.Name) and n.id == name and isinstance(n.ctx, ast.Load):
+                    out += use_sites(n, facts + site_facts(n), depth - 1)
+            return out
+        return [(e, facts)]
+
+    # intermediate iteration: the parent tag shortened by one level
+    inter = []
+    for n in body:
+        if isinstance(n, ast.Subscript) and _prefix_base(n) is not None:
+            base = _prefix_base(inlined(n))
+            if base in (first, other):
+                inter += [(base, s, fs) for s, fs in use_sites(n, site_facts(n))]
+    ctx.require(bool(inter), "C16.R9: LoopCombinatorStep.restore no longer shortens one of the compared tags by one level (`'.'.join(parent_tag.split('.')[:-1])`): "
+                "the intermediate-iteration case is not recognised")
+    bases = {b for b, _, _ in inter}
+    ctx.require(len(bases) == 1, "C16.R9: both compared tags are shortened in LoopCombinatorStep.restore")
+    token_tag = other if bases == {first} else first
+    words = {"<": "shallower than", "=": "as deep as", ">": "deeper than"}
+
+    def say(rels):  # relative to the parent tag (the one that is shortened)
+        rs = rels if bases == {first} else {_FLIP_REL[r] for r in rels}
+        return ("the parent tag (the tag that the intermediate case shortens) is " + " or ".join(words[r] for r in _RELS if r in rs) + " the token's tag") if rs else "never"
+    # first iteration: the token's own tag, as it is, joins a collection
+    firsts = []
+    for n in body:
+        if not isinstance(n, (ast.Attribute, ast.Name, ast.Subscript, ast.Call)) or not isinstance(getattr(n, "ctx", ast.Load()), ast.Load):
+            continue
+        pa = parent(n)
+        pos = (isinstance(pa, (ast.Set, ast.List, ast.Tuple)) or (isinstance(pa, ast.IfExp) and n is not pa.test)
+               or (isinstance(pa, ast.Call) and n in pa.args and isinstance(pa.func, ast.Attribute) and pa.func.attr in _COLLECT)
+               or (isinstance(pa, ast.Assign) and pa.value is n and len(pa.targets) == 1 and isinstance(pa.targets[0], ast.Name)
+                   and len(defs_of(f, pa.targets[0].id)) > 1))
+        if pos and not isinstance(enclosing_stmt(n), ast.Raise) and unparse(inlined(n)) == token_tag:
+            firsts.append((n, site_facts(n)))
+    ctx.require(bool(firsts), "C16.R9: LoopCombinatorStep.restore no longer adds the token's own tag to the restored tags: the first-iteration case is not recognised")
+    for e, facts in firsts:
+        rels, used = reach(facts)
+        ctx.ob("R9", what_first, rels == {"<", ">"}, func=f, node=e, instance="loop:first-iteration",
+               message=f"`{unparse(enclosing_stmt(e))[:100]}` (restart from the first iteration) is reached when "
+               f"{say(rels)} [{'; '.join(used) or 'no depth test dominates it'}], not exactly when the two depths differ (shallower or deeper): the parent of a "
+               "first-iteration token (tag 0 for 0.0) is shallower than the token; a first iteration taken for an intermediate one rebuilds the counters from a shortened parent tag "
+               "(compare_tags fails on the empty tag / the loop resumes at a wrong iteration), an intermediate one taken for the first re-runs the whole loop")
+    for base, e, facts in inter:
+        rels, used = reach(facts)
+        ctx.ob("R9", what_inter, rels == {"="}, func=f, node=e, instance="loop:intermediate-iteration",
+               message=f"`{unparse(enclosing_stmt(e))[:100]}` (restart from an intermediate iteration: the parent tag shortened by one level) is reached when "
+               f"{say(rels)} [{'; '.join(used) or 'no depth test dominates it'}], not exactly when the two depths are equal: a parent of a different depth "
+               "is the input of the loop, not the previous iteration - its shortened tag is not the loop prefix (it is '' for the parent 0 of 0.0, on which compare_tags raises)")
+
+
+RULES = [("R1", r1), ("R2", r2), ("R3", r3), ("R4", r4), ("R5", r5), ("R6", r6), ("R7", r7), ("R8", r8), ("R9", r9)]
+FLOORS = {"R1": 13, "R2": 16, "R3": 24, "R4": 15, "R5": 3, "R6": 20, "R7": 3, "R8": 9, "R9": 2}
 
 _W = f"{DECORATOR}.<locals>.wrapper"
 _REC = f"{RFM}._recover"
@@ -1677,6 +1955,13 @@ _CREATE_PORT = ("        if not isinstance(port, (ConnectorPort, InterWorkflowJo
                 "            workflow.create_port(InterWorkflowJobPort if isinstance(port, JobPort) else InterWorkflowPort, port.name)")
 _CREATE_PORT_STMT = ("        if isinstance(port, (ConnectorPort, InterWorkflowJobPort, InterWorkflowPort)):\n            continue\n        port_cls: type[Port]\n"
                      "        if isinstance(port, JobPort):\n            port_cls = %s\n        else:\n            port_cls = %s\n        workflow.create_port(port_cls, port.name)")
+
+_LCSR = f"{STEP}.LoopCombinatorStep.restore"
+_DEPTH_NE = "len(parent_tag.split('.')) != len(token.tag.split('.'))"
+_DEPTH_IF = "            if " + _DEPTH_NE + ":\n"
+_DEPTH_BODY = ("                tags |= {parent_tag, token.tag}\n            else:\n"
+               "                tags |= {parent_tag, '.'.join(parent_tag.split('.')[:-1])}\n")
+_TAG_DEPTH = "\ndef _tag_depth(tag: str) -> int:\n    return len(tag.split('.'))\n"
 
 VARIANTS = [
     # ---- R1
@@ -1912,4 +2197,40 @@ VARIANTS = [
       "        if not isinstance(port, JobPort):\n            port_cls = InterWorkflowJobPort\n        workflow.create_port(port_cls, port.name)", "R5"),
     V("guard-clause form skips the plain ports instead of the special ones", FM_FILE, f"{FM}._populate_workflow", _CREATE_PORT,
       (_CREATE_PORT_STMT % ("InterWorkflowJobPort", "InterWorkflowPort")).replace("        if isinstance(port, (ConnectorPort,", "        if not isinstance(port, (ConnectorPort,"), "R5"),
+    # ---- R9 (seeded change C16/_mut/2: `!=` of the two tag depths became `>`)
+    V("restore: first iteration only when the parent tag is deeper (seeded)", STEP_FILE, _LCSR, _DEPTH_NE, _DEPTH_NE.replace("!=", ">"), "R9", control=True),
+    V("restore: first iteration only when the parent tag is shallower", STEP_FILE, _LCSR, _DEPTH_NE, _DEPTH_NE.replace("!=", "<"), "R9"),
+    V("restore: first iteration when the depths are equal (branches exchanged)", STEP_FILE, _LCSR, _DEPTH_NE, _DEPTH_NE.replace("!=", "=="), "R9"),
+    V("restore: first iteration also when the depths are equal", STEP_FILE, _LCSR, _DEPTH_NE, _DEPTH_NE.replace("!=", ">="), "R9"),
+    V("restore: the depth test is gone (always an intermediate iteration)", STEP_FILE, _LCSR, _DEPTH_IF, _DEPTH_IF.replace(_DEPTH_NE, "not tags"), "R9"),
+    V("restore: temporaries, wrong direction", STEP_FILE, _LCSR, _DEPTH_IF,
+      "            parent_depth = len(parent_tag.split('.'))\n            token_depth = len(token.tag.split('.'))\n            if token_depth < parent_depth:\n", "R9"),
+    V("restore: conditional expression, wrong direction", STEP_FILE, _LCSR, _DEPTH_IF + _DEPTH_BODY,
+      "            tags |= {parent_tag, token.tag if len(parent_tag.split('.')) > len(token.tag.split('.')) else '.'.join(parent_tag.split('.')[:-1])}\n", "R9"),
+    V("restore: guard clause, wrong direction", STEP_FILE, _LCSR, _DEPTH_IF + _DEPTH_BODY,
+      "            if len(parent_tag.split('.')) <= len(token.tag.split('.')):\n                from_tags[name] = sorted(tags | {parent_tag, '.'.join(parent_tag.split('.')[:-1])}, key=cmp_to_key(compare_tags))\n"
+      "                continue\n            tags |= {parent_tag, token.tag}\n", "R9"),
+    V("restore: depth helper, wrong direction", STEP_FILE, _LCSR, _DEPTH_NE, "_tag_depth(parent_tag) > _tag_depth(token.tag)", "R9", append=_TAG_DEPTH),
+    V("restore: equality test, branches exchanged accordingly", STEP_FILE, _LCSR, _DEPTH_IF + _DEPTH_BODY,
+      "            if len(parent_tag.split('.')) == len(token.tag.split('.')):\n                tags |= {parent_tag, '.'.join(parent_tag.split('.')[:-1])}\n"
+      "            else:\n                tags |= {parent_tag, token.tag}\n", None),
+    V("restore: negated equality, operands exchanged", STEP_FILE, _LCSR, _DEPTH_NE, "not len(token.tag.split('.')) == len(parent_tag.split('.'))", None),
+    V("restore: shallower or deeper", STEP_FILE, _LCSR, _DEPTH_NE,
+      "len(parent_tag.split('.')) < len(token.tag.split('.')) or len(parent_tag.split('.')) > len(token.tag.split('.'))", None),
+    V("restore: temporaries for the two depths and the shortened tag", STEP_FILE, _LCSR, _DEPTH_IF + _DEPTH_BODY,
+      "            parent_depth = len(parent_tag.split('.'))\n            token_tag = token.tag\n            token_depth = len(token_tag.split('.'))\n"
+      "            prefix = '.'.join(parent_tag.split('.')[:-1])\n            same_depth = parent_depth == token_depth\n"
+      "            if same_depth:\n                tags |= {parent_tag, prefix}\n            else:\n                tags |= {parent_tag, token_tag}\n", None),
+    V("restore: dots counted instead of components split", STEP_FILE, _LCSR, _DEPTH_NE, "parent_tag.count('.') != token.tag.count('.')", None),
+    V("restore: conditional expression", STEP_FILE, _LCSR, _DEPTH_IF + _DEPTH_BODY,
+      "            tags |= {parent_tag, token.tag if len(parent_tag.split('.')) != len(token.tag.split('.')) else parent_tag.rsplit('.', 1)[0]}\n", None),
+    V("restore: second tag chosen by assignments, then added", STEP_FILE, _LCSR, _DEPTH_IF + _DEPTH_BODY,
+      "            if len(parent_tag.split('.')) != len(token.tag.split('.')):\n                second = token.tag\n            else:\n"
+      "                second = '.'.join(parent_tag.split('.')[:-1])\n            tags.add(parent_tag)\n            tags.add(second)\n", None),
+    V("restore: guard clause for the intermediate iteration", STEP_FILE, _LCSR, _DEPTH_IF + _DEPTH_BODY,
+      "            if len(parent_tag.split('.')) == len(token.tag.split('.')):\n                from_tags[name] = sorted(tags | {parent_tag, '.'.join(parent_tag.split('.')[:-1])}, key=cmp_to_key(compare_tags))\n"
+      "                continue\n            tags |= {parent_tag, token.tag}\n", None),
+    V("restore: depth helper", STEP_FILE, _LCSR, _DEPTH_NE, "_tag_depth(parent_tag) != _tag_depth(token.tag)", None, append=_TAG_DEPTH),
+    V("restore: same-depth predicate extracted", STEP_FILE, _LCSR, _DEPTH_NE, "not _same_depth(parent_tag, token.tag)", None,
+      append="\ndef _same_depth(tag1: str, tag2: str) -> bool:\n    return len(tag1.split('.')) == len(tag2.split('.'))\n"),
 ]
